@@ -393,6 +393,15 @@ class CallMixin:
             if any(isinstance(a, Sym) and a.op == "star" for a in args):
                 self.event("star_call", func=q)
                 return Sym("call", RefV(q), tuple(args), _kw(kwargs))
+            if "**" in kwargs:
+                extra = kwargs.pop("**")
+                if isinstance(extra, PyDict) and not extra.opaque_keys and not extra.items:
+                    pass
+                else:
+                    kwargs["**"] = extra
+            if getattr(func, "bound_cls", None):
+                return self.call_function(func.module, func.fn, args, {k: v for k, v in kwargs.items() if k != "**"},
+                                          func.bound_cls, closure=func.closure if isinstance(func.closure, dict) else None)
             if q in self.summarise_funcs and not kwargs and args and \
                     all(isinstance(a, (NodeV, Const, RefV)) for a in args) and any(isinstance(a, NodeV) for a in args):
                 return self.call_summarised(q, func, args)
@@ -400,6 +409,9 @@ class CallMixin:
         if isinstance(func, RefV):
             return self.call_ref(func, args, kwargs, module, node, env)
         if isinstance(func, Sym):
+            if func.op == "calldecorated":
+                m, fn, a, kw, cls = self._deco_target
+                return self.call_decorated(m, fn, a, kw, cls)
             if func.op == "bm":
                 return self.call_builtin_method(func.args[0], func.args[1], args, kwargs, module, node)
             if func.op == "nodemeth":
@@ -419,6 +431,21 @@ class CallMixin:
         self.event("extcall", func=func, args=args, kwargs=dict(kwargs))
         self.external_may_raise(f"call {_describe(func)}")
         return Sym("call", func, tuple(args), _kw(kwargs))
+
+    def call_decorated(self, module: Module, fn, args: List[V], kwargs: Dict[str, V], cls: Optional[str]) -> V:
+        """Call a function through its decorators (in-repo decorators are evaluated: their wrapper is a
+        closure that eventually calls the function)."""
+        f: V = FuncV(module, fn)
+        f.bound_cls = cls  # type: ignore[attr-defined]
+        for d in reversed(fn.decorator_list):
+            txt = ast.unparse(d)
+            if txt in ("staticmethod", "classmethod", "property"):
+                continue
+            dv = self.eval(d, {}, module)
+            f = self.call_v(dv, [f], {}, module, d)
+        if isinstance(f, FuncV) and f.fn is fn:
+            return self.call_function(module, fn, args, kwargs, cls)
+        return self.call_v(f, args, kwargs, module, fn)
 
     def call_summarised(self, q: str, func: FuncV, args: List[V]) -> V:
         """Call a pure in-repo function through a summary: the function is explored separately on
@@ -448,6 +475,7 @@ class CallMixin:
                     fresh = [NodeV(f"${i}", a.kinds) if isinstance(a, NodeV) else a for i, a in enumerate(args)]
                     it._cur_args = fresh
                     return func.module, func.fn, fresh, {}, None
+
 
                 groups: Dict[str, Dict[str, Any]] = {}
                 for res in child.explore(setup):
@@ -491,8 +519,9 @@ class CallMixin:
             self.event("visit", visitor=obj.label, vcls=obj.cls, arg=arg, nargs=len(args) + len(kwargs))
             return Sym("visit", obj.label, arg)
         decos = getattr(b, "decorators", None)
-        if decos:
+        if decos and not getattr(self, "_in_decorated", False):
             self.event("decorated_call", func=name, decorators=decos)
+            return self.call_decorated(b.module, b.fn, [obj] + list(args), kwargs, b.cls)
         stub = getattr(self, "stub_methods", None)
         looked_up = getattr(b, "attr_name", name)
         if stub is not None and stub(looked_up) and len(self.stack) >= 1:
@@ -521,6 +550,8 @@ class CallMixin:
             return Const(self.equal(self.resolve_alt(args[0]), self.resolve_alt(args[1]), True, "operator.is_"))
         if q in ("operator.not_",) and len(args) == 1:
             return Const(not self.truthy(args[0], "operator.not_"))
+        if q in ("functools.wraps", "functools.update_wrapper"):
+            return RefV("builtins.__identity__")
         if q == "dataclasses.fields" and len(args) == 1:
             n = self.resolve_alt(args[0])
             if isinstance(n, NodeV):
@@ -601,6 +632,8 @@ class CallMixin:
     # ------------------------------------------------------------------------------------
     def call_builtin(self, name: str, args, kwargs, module, node, env) -> V:
         a = [self.resolve_alt(x) for x in args]
+        if name == "__identity__" and len(a) == 1:
+            return a[0]
         if name == "isinstance" and len(a) == 2:
             return Const(self.isinstance_v(a[0], a[1]))
         if name == "issubclass" and len(a) == 2:
